@@ -415,6 +415,8 @@ package bpmn
 //@             evval(ev(p)) == evval(ev(p - 1))
 //@   ensures [done-closed-at-most-once] forall p int, q int :: old(evlen) <= p && p < q && q < evlen &&
 //@             isClose(ev(p)) ==> !isClose(ev(q))
+//@   ensures [decision-is-published-by-closing-done] closed(t.done) || (isRecv(ev(evlen - 1)) && evch(ev(evlen - 1)) == t.done)
+//@   ensures [nothing-is-sent-on-done] forall p int :: old(evlen) <= p && p < evlen ==> !(isSend(ev(p)) && evch(ev(p)) == t.done)
 
 //@ func DoWithErr
 //@   prop C08
